@@ -1069,8 +1069,10 @@ type responseWriter struct {
 	endWritten bool
 	// returned by Header() once endWritten is true
 	detachedHeader http.Header
-	respMeta       *responseMeta
-	err            error
+	// trailers that carried the end of the RPC (nil if it was not sent in trailers)
+	endTrailers http.Header
+	respMeta    *responseMeta
+	err         error
 	// wraps op.writer; initialized after headers are written
 	w io.WriteCloser
 	// may be used in place of op.writer for protocols that must see
@@ -1334,6 +1336,7 @@ func (w *responseWriter) close() {
 		_ = w.w.Close()
 	}
 	if w.endWritten {
+		w.reassertEnd()
 		return // all done
 	}
 	if w.respMeta.end != nil {
@@ -1354,7 +1357,27 @@ func (w *responseWriter) close() {
 func (w *responseWriter) writeEnd(end *responseEnd, wasInHeaders bool) {
 	trailers := w.op.client.protocol.encodeEnd(w.op, end, w.delegate, wasInHeaders)
 	httpMergeTrailers(w.Header(), trailers)
+	w.endTrailers = trailers
 	w.endWritten = true
+}
+
+// reassertEnd makes sure that the RPC status sent in HTTP trailers is the one
+// this writer reported. Trailers are only transmitted once the handler has
+// returned, so a handler that still holds the header map (and, for example,
+// sets its own "Grpc-Status: 0" after the transcoder already reported an
+// error) could otherwise replace the result.
+func (w *responseWriter) reassertEnd() {
+	if w.op.client.protocol.protocol() != ProtocolGRPC {
+		return // other client protocols carry the status in the body or headers
+	}
+	hdr := w.delegate.Header()
+	for _, key := range []string{"Grpc-Status", "Grpc-Message", "Grpc-Status-Details-Bin"} {
+		if vals, ok := w.endTrailers[key]; ok {
+			hdr[http.TrailerPrefix+key] = vals
+		} else {
+			delete(hdr, http.TrailerPrefix+key)
+		}
+	}
 }
 
 // envelopingWriter will translate between envelope styles as data is
